@@ -44,6 +44,8 @@ type Plan struct {
 	Atom    *AtomPlan   `json:"atom,omitempty"`
 	Net     *NetPlan    `json:"net,omitempty"`
 	Sync    *SyncPlan   `json:"sync,omitempty"`
+	// C06: after the main run, a validly signed header with a wrong PrevStateRoot is recorded ahead of the blocks
+	HeadersFirst bool `json:"headers_first,omitempty"`
 }
 
 // Engine implements sim.Engine.
